@@ -152,6 +152,9 @@ func opaqueValue(n int) any {
 
 // ToGo builds the Go value.
 func (v *Val) ToGo() any {
+	if v == nil {
+		return nil // JSON null
+	}
 	switch v.Kind {
 	case "nil":
 		return nil
